@@ -19,7 +19,7 @@ func init() {
 		Technique: "static analysis: call-graph reachability from the validation/planning entry points with site collection (explicit panics, request-derived slice indexes without a dominating bound check, nil-able message dereferences, unbounded loops, recursion), each site excluded by a checked precondition or reported; dominance of validation before use",
 		Explanation: "(R1) in everything reachable from request validation, graph construction, hashing, staging and planning, every explicit panic, every slice index derived from a request field, and every dereference of a nil-able request sub-message is either guarded in the same function or excluded by a validation check that is itself verified to exist (allow-table with the excluding check as a rule instance); " +
 			"(R2) the handlers validate the request (error → invalid argument) before constructing the graph; " +
-			"(R3) the only loop without a bound and the only recursion reachable are the layering loop and the ancestor hashing, both under the verified preconditions `graph acyclic` and `references exist with the right kind`; the size limits (100 modules, 30 inputs, 300 MB) are tested before any per-module allocation.",
+			"(R3) the only loop without a bound and the only recursion reachable are the layering loop and the ancestor hashing, both under the verified preconditions `graph acyclic` and `references exist with the right kind`; the size limits (100 modules, 30 inputs, 300 MB) are tested before any per-module allocation. R3 also requires that the graph tested for cycles holds an edge for every module reference the layering loop waits on (each map/store input and the block filter, self references included unless validation is verified to refuse them).",
 		NotCovered:  "That the recorded preconditions really imply termination (self references through the external graph library), panics inside dependencies (bstream, yourbasic/graph, protobuf), allocation bounds of the external libraries.",
 		Assumptions: []string{"the protobuf decoder never leaves the inner message of a set oneof nil", "yourbasic/graph.Acyclic detects every cycle including self loops"},
 	})
